@@ -211,3 +211,129 @@ def _(v):
     for f in XVA:
         v.prove("weighted." + f, out.m * out[f] == S[f](last))
     prove_particles_untouched(v, s)
+
+
+# ============================================================================ centre-of-mass sub-steps
+@P.task("whfast_com_step", fn="reb_whfast_com_step", files=["src/integrator_whfast.c"])
+def _(v):
+    """slot 0 of the Jacobi/heliocentric set is the centre of mass: x0 += dt v0 (uniform motion), nothing else changes."""
+    s = mk_sim(v)
+    pj = v.array("struct reb_particle", s.Nalloc, "PJ")
+    s.r.ri_whfast.p_jh = pj.ptr
+    v.assume(s.Nalloc >= 1)
+    leaves = sorted(pj.obj.leaf_types, key=str)
+    old = {f: pj.array(*f) for f in leaves}
+    dt = v.real("dt")
+    v.call("reb_whfast_com_step", s.rp, dt)
+    new = {f: pj.array(*f) for f in leaves}
+    k = v.int("k")
+    for c in "xyz":
+        v.prove("uniform." + c, z3.Select(new[(c,)], 0) == z3.Select(old[(c,)], 0) + dt * z3.Select(old[("v" + c,)], 0))
+        v.prove("others." + c, z3.Implies(k != 0, z3.Select(new[(c,)], k) == z3.Select(old[(c,)], k)))
+    for f in leaves:
+        if f not in (("x",), ("y",), ("z",)):
+            v.prove("frame." + lname(f), new[f] == old[f])
+    prove_particles_untouched(v, s)
+
+
+for integ, fn, fld, fil in (("mercurius", "reb_integrator_mercurius_com_step", "ri_mercurius", "src/integrator_mercurius.c"),
+                            ("trace", "reb_integrator_trace_com_step", "ri_trace", "src/integrator_trace.c")):
+    @P.task(integ + "_com_step", fn=fn, files=[fil])
+    def _(v, fn=fn, fld=fld):
+        """com_pos += dt * com_vel; com_vel and the particles untouched."""
+        s = mk_sim(v)
+        ri = s.r[fld]
+        p0 = [ri.com_pos[c] for c in "xyz"]
+        v0 = [ri.com_vel[c] for c in "xyz"]
+        dt = v.real("dt")
+        v.call(fn, s.rp, dt)
+        ri = s.r[fld]
+        for a, c in enumerate("xyz"):
+            v.prove("uniform." + c, ri.com_pos[c] == p0[a] + dt * v0[a])
+            v.prove("velocity_kept." + c, ri.com_vel[c] == v0[a])
+        prove_particles_untouched(v, s)
+
+
+# ============================================================================ IAS15 compensated summation
+@P.task("ias15_add_cs", fn="add_cs", files=["src/integrator_ias15.c"])
+def _(v):
+    """in the reals: *p' = *p + inp - *csp and *csp' = 0 (the compensation term is exactly the rounding error, which is 0)."""
+    p0, c0, inp = v.real("p"), v.real("cs"), v.real("inp")
+    pc, pp = v.cell("double", "p_cell", p0)
+    cc, cp = v.cell("double", "cs_cell", c0)
+    v.call("add_cs", pp, cp, inp)
+    v.prove("sum", v.st.mem.get(pc.id).value == p0 + inp - c0)
+    v.prove("compensation_zero", v.st.mem.get(cc.id).value == 0)
+
+
+# ============================================================================ merging collision (pair level)
+from contracts import C13_collisions as C13
+
+
+for tag, order in C13.ORDERS:
+    @P.task("merge.mass_momentum." + tag, fn="reb_collision_resolve_merge", files=["src/collision.c"])
+    def _(v, order=order):
+        """mass and momentum of the pair end up in the surviving (lower-index) particle, every other particle is untouched
+        and the higher index is the one reported for removal: total mass and total momentum are unchanged by a merger."""
+        s = C13.mk_sim(v)
+        c, p1, p2 = C13.mk_collision(v, s, order)
+        s.r.track_energy_offset = 0
+        C13.merge_pre(v, s, p1, p2)
+        ret = v.call("reb_collision_resolve_merge", s.rp, c)
+        o, n = s.old, C13.cur(s)
+        lo, hi = (p1, p2) if order == "p1<p2" else (p2, p1)
+        sel = C13.sel
+        v.prove("mass", sel(n, "m", lo) == sel(o, "m", lo) + sel(o, "m", hi))
+        for f in ("vx", "vy", "vz"):
+            v.prove("momentum." + f, sel(n, "m", lo) * sel(n, f, lo) == sel(o, "m", lo) * sel(o, f, lo) + sel(o, "m", hi) * sel(o, f, hi))
+        for f in ("x", "y", "z"):
+            v.prove("centre_of_mass." + f, sel(n, "m", lo) * sel(n, f, lo) == sel(o, "m", lo) * sel(o, f, lo) + sel(o, "m", hi) * sel(o, f, hi))
+        k = v.int("k")
+        for f in ("m", "vx", "vy", "vz", "x", "y", "z"):
+            v.prove("others." + f, z3.Implies(k != lo, z3.Select(n[(f,)], k) == z3.Select(o[(f,)], k)))
+        v.prove("removes_higher", z3.And(ret == (2 if order == "p1<p2" else 1), hi == (p2 if order == "p1<p2" else p1)))
+
+
+# ============================================================================ leapfrog sub-steps (per particle)
+P.assume("leapfrog sub-steps are stated per particle; total momentum / uniform centre-of-mass motion follow by summation "
+         "(drift: velocities untouched; kick: sum m dv = dt sum m a, zero by C02's antisymmetry)")
+
+
+def lf_inv(v, s, dt, kick):
+    k = z3.Int("k_lf")
+    o = s.old
+    S = lambda f, i: z3.Select(o[(f,)], i)
+
+    def want(cur_, i):
+        out = []
+        for c in "xyz":
+            vnew = S("v" + c, i) + dt * S("a" + c, i) if kick else S("v" + c, i)
+            out.append(z3.Select(cur_[("v" + c,)], i) == vnew)
+            out.append(z3.Select(cur_[(c,)], i) == S(c, i) + dt / 2 * vnew)
+        return z3.And(*out)
+
+    def inv(L):
+        i = L.i
+        c_ = cur(s)
+        done = z3.ForAll([k], z3.Implies(z3.And(0 <= k, k < i), want(c_, k)))
+        todo = z3.ForAll([k], z3.Implies(k >= i, z3.And(*[z3.Select(c_[(f,)], k) == S(f, k) for f in XV])))
+        frame = z3.And(*[c_[f] == o[f] for f in s.leaves if not (len(f) == 1 and f[0] in XV)])
+        return [("range", z3.And(0 <= i, i <= s.N)), ("done", done), ("todo", todo), ("frame", frame)]
+    return inv, want
+
+
+for part, kick in (("part1", False), ("part2", True)):
+    @P.task("leapfrog_" + part, fn="reb_integrator_leapfrog_" + part, files=["src/integrator_leapfrog.c"])
+    def _(v, part=part, kick=kick):
+        """part1: x += dt/2 v (drift, velocities and masses untouched); part2: v += dt a then x += dt/2 v."""
+        s = mk_sim(v)
+        dt = s.r.dt
+        t0 = s.r.t
+        inv, want = lf_inv(v, s, dt, kick)
+        v.loop("reb_integrator_leapfrog_" + part, 0, invariant=inv, variant=lambda L: s.N - L.i)
+        v.call("reb_integrator_leapfrog_" + part, s.rp)
+        j = v.int("j")
+        v.assume(0 <= j, j < s.N)
+        v.prove("each_particle", want(cur(s), j))
+        v.prove("masses_untouched", cur(s)[("m",)] == s.old[("m",)])
+        v.prove("time", s.r.t == t0 + dt / 2)
